@@ -279,48 +279,3 @@ def lb_py_check(case, obs, need_write=True):
             why.append('ITZON differs')
     return why
 
-
-def lb_thin(c):
-    return c.get('fmt') == 'lateral_boundary' and (c['nx'] == 1 or c['ny'] == 1)
-
-
-def walk_records(ws):
-    """python record walker (only for the python-judged thin-grid boundary files): list of payloads or None"""
-    i, out = 0, []
-    while i < len(ws):
-        if ws[i] % 4 or ws[i] < 0:
-            return None
-        m = ws[i] // 4
-        if i + m + 1 >= len(ws) or ws[i + m + 1] != ws[i]:
-            return None
-        out.append(ws[i + 1:i + 1 + m])
-        i += m + 2
-    return out
-
-
-def lb_thin_check(case, obs):
-    """S for the writer path on nx or ny = 1 (python-judged): the written file tiles into records equal to the reference
-    records (up to the writer's own end-date derivation), reads back as the content, and re-writes identically"""
-    c = case['content']
-    why = lb_py_check(case, obs)
-    w1 = obs.get('w1') or {}
-    if w1.get('status') != 'ok':
-        why.append('library writer on the in-memory file: %s (%s)' % (w1.get('status'), w1.get('err')))
-    else:
-        recs = walk_records(w1['words'])
-        if recs is None:
-            why.append('library writer output is not a sequence of Fortran records (markers do not tile the file)')
-        elif not _year_end_23(c) and recs != M.records(c):
-            why.append('records written differ from the reference records')
-        mm = obs.get('mm') or {}
-        if mm.get('status') != 'ok':
-            why.append('library reader on the written file: %s (%s)' % (mm.get('status'), mm.get('err')))
-        else:
-            e = M.expected_view(c)
-            why += M.view_matches(mm['view'], e)
-            if not _year_end_23(c) and mm['view'].get('ETFLAG') != e['ETFLAG']:
-                why.append('ETFLAG %s expected %s' % (mm['view'].get('ETFLAG'), e['ETFLAG']))
-            w2 = obs.get('w2') or {}
-            if w2.get('status') != 'ok' or w2.get('words') != w1['words']:
-                why.append('second write differs from the first')
-    return why
